@@ -67,25 +67,54 @@ func NewStreamDecoder(r io.Reader) *StreamDecoder {
 // or syntax error from data will be recorded and stop subsequently decoding.
 func (self *StreamDecoder) Decode(val interface{}) (err error) {
 	// read more data into buf
-	if self.More() {
-		var s = self.scanp
+	if self.err != nil {
+		return self.err
+	}
+
+	// NOTICE: not More(), which is also false for a pending ']' or '}':
+	// Decode would then return nil forever without consuming anything
+	if _, perr := self.peek(); perr == nil {
+		var s0 = self.scanp
+		var s = s0
 	try_skip:
 		var e = len(self.buf)
 		var src = rt.Mem2Str(self.buf[s:e])
 		// try skip
 		var x = 0
-		if y := native.SkipOneFast(&src, &x); y < 0 {
+		var y = native.SkipOneFast(&src, &x)
+		if y < 0 {
 			if self.readMore() {
 				goto try_skip
 			}
-			if self.err == nil {
-				self.err = SyntaxError{e, self.s, types.ParsingError(-s), ""}
-				self.setErr(self.err)
+			if self.err == nil || self.err == io.EOF {
+				// the input ends (or stops making sense) inside a value:
+				// that is a syntax error, not a clean end of the stream
+				self.err = SyntaxError{x, string(self.buf[s:]), types.ParsingError(-y), ""}
 			}
+			self.setErr(self.err)
 			return self.err
 		} else {
 			s = y + s
 			e = x + s
+			if c := self.buf[s]; c == '-' || (c >= '0' && c <= '9') {
+				// The fast skipper runs past a top-level number up to the next
+				// delimiter. Frame the number literal itself, and if it touches the
+				// end of the buffered data ask for more: the rest of its digits may
+				// not have arrived yet.
+				e = scanNumber(self.buf, s)
+				if e == len(self.buf) {
+					if self.readMore() {
+						s = s0
+						goto try_skip
+					}
+					if e == len(self.buf) && self.err != nil && self.err != io.EOF {
+						// the reader failed before the number was known to be complete
+						// (not even white space arrived after it)
+						self.setErr(self.err)
+						return self.err
+					}
+				}
+			}
 		}
 
 		// must copy string here for safety
@@ -111,9 +140,44 @@ func (self *StreamDecoder) Decode(val interface{}) (err error) {
 
 		self.scanned += int64(self.scanp)
 		self.scanp = 0
+
+		// a reader error met while looking past this value belongs to the next call
+		return nil
 	}
 
 	return self.err
+}
+
+// scanNumber returns the end of the longest prefix of buf[s:] that has the
+// shape of a JSON number (its validity is checked by the decoder afterwards).
+func scanNumber(buf []byte, s int) int {
+	n := len(buf)
+	i := s
+	digits := func() {
+		for i < n && buf[i] >= '0' && buf[i] <= '9' {
+			i++
+		}
+	}
+	if i < n && buf[i] == '-' {
+		i++
+	}
+	if i < n && buf[i] == '0' {
+		i++
+	} else {
+		digits()
+	}
+	if i < n && buf[i] == '.' {
+		i++
+		digits()
+	}
+	if i < n && (buf[i] == 'e' || buf[i] == 'E') {
+		i++
+		if i < n && (buf[i] == '+' || buf[i] == '-') {
+			i++
+		}
+		digits()
+	}
+	return i
 }
 
 // InputOffset returns the input stream byte offset of the current decoder position.
@@ -163,7 +227,8 @@ func (self *StreamDecoder) readMore() bool {
 
 		// buffer has been scanned, now report any error
 		if err != nil {
-			self.setErr(err)
+			// the caller still needs the pending bytes to report them
+			self.err = err
 			return false
 		}
 	}
